@@ -6,7 +6,7 @@
    spec_case : what the implementation did satisfies the specification, formulated
                independently of the model (layout as a sum, provenance from the
                generator's own knowledge, last-OPT by a forward fold). *)
-From Sdns Require Export Common.Base Gen.C15 C15.Model.
+From Sdns Require Export Common.Base Gen.C15 C15.Model C15.Concrete.
 Open Scope N_scope.
 
 (* compact forms the drivers print; package paths are given once per case *)
@@ -41,7 +41,16 @@ Inductive case :=
 | CaseRelease (had_map : bool) (entries : N) (post_nil : bool) (post_len : N) (post_clean : bool)
   (* responseWriter.WriteMsg: AllowDirectPack declared?, internal writer?, does TryPack handle
      the message?; observed: raw bytes written / message handed to Transport.WriteMsg *)
-| CaseWrite (direct internal handled wrote_bytes fell_back : bool).
+| CaseWrite (direct internal handled wrote_bytes fell_back : bool)
+  (* dns.PackDomainName(s, make([]byte, buflen), off, dictionary, compress): ok?, new offset, the
+     octets written at [off, off1), the dictionary entries added (in order of insertion) *)
+| CaseName (s : list N) (buflen off : nat) (cm : option (list (list N * nat))) (compress : bool)
+           (ok : bool) (off1 : nat) (written : list N) (added : list (list N * nat))
+  (* a message of step-decomposable records through TryPack (dirty pool) and the library:
+     handled?, library packs?, the library's bytes (= TryPack's when handled) *)
+| CaseConcrete (h : mhdr) (compress : bool) (qs : list (list N * N * N)) (an ns ex : list crec)
+               (handled lib_ok : bool) (bytes : list N)
+with crec := R (nm : list N) (k : rkind) (ptr ty cls ttl rdlen : N) (steps : body).
 
 Fixpoint bools_eqb (a b : list bool) : bool :=
   match a, b with
@@ -75,6 +84,25 @@ Definition release_n (cm : option N) : option N :=
     (release unit unit N tt 0 (fun n => n)
        (mk_pstate unit unit N [] cm (Some 1) (mk_rrhdr unit tt 1 1 1 1) (Some (mk_rrhdr unit tt 1 1 1 1, tt)))).
 
+Fixpoint entries_eqb (a b : list (list N * nat)) : bool :=
+  match a, b with
+  | [], [] => true
+  | (k1, v1) :: r1, (k2, v2) :: r2 => bytes_eqb k1 k2 && (v1 =? v2)%nat && entries_eqb r1 r2
+  | _, _ => false
+  end.
+
+Definition lib_dyn : dynv := mk_dyn false true false library_pkg.
+Definition slot_of (r : crec) : slot name body :=
+  match r with
+  | R nm k ptr ty cls ttl rdlen steps => mk_slot name body (mk_shape lib_dyn k [] ptr ty ttl) nm cls rdlen steps
+  end.
+Definition msg_of (h : mhdr) (compress : bool) (qs : list (list N * N * N)) (an ns ex : list crec) : msg name body :=
+  mk_msg name body h compress (map (fun q => mk_q name (fst (fst q)) (snd (fst q)) (snd q)) qs)
+         (map slot_of an) (map slot_of ns) (map slot_of ex).
+(* a pooled state full of an earlier message *)
+Definition dirty_state : pstate name body dict :=
+  mk_pstate name body dict (repeat 255 (N.to_nat pack_buffer_size)) None None (hdr_zero name []) None.
+
 Definition check_case (c : case) : bool :=
   match c with
   | CaseMsg pkgs h compress nq an ns ex ulen o =>
@@ -103,6 +131,28 @@ Definition check_case (c : case) : bool :=
       end
   | CaseWrite direct internal handled wrote fell =>
       Bool.eqb wrote (write_msg_direct direct internal handled) && Bool.eqb fell (negb wrote)
+  | CaseName s buflen off cm compress ok off1 written added =>
+      match pack_name_c s (repeat 0 buflen) off cm compress with
+      | None => negb ok
+      | Some (o, b, cm') =>
+          ok && (o =? off1)%nat && bytes_eqb (firstn (o - off) (skipn off b)) written &&
+          match cm, cm' with
+          | None, None => match added with [] => true | _ => false end
+          | Some d, Some d' => entries_eqb (rev (firstn (length d' - length d) d')) added &&
+                               entries_eqb (skipn (length d' - length d) d') d
+          | _, _ => false
+          end
+      end
+  | CaseConcrete h compress qs an ns ex handled lib_ok bytes =>
+      let m := msg_of h compress qs an ns ex in
+      match tp_bytes name body dict (try_pack_c dirty_state m) with
+      | Some b => handled && bytes_eqb b bytes
+      | None => negb handled
+      end &&
+      match fst (lib_pack_c m) with
+      | LOk b => lib_ok && bytes_eqb b bytes
+      | _ => negb lib_ok
+      end
   end.
 
 (* ---- the specification, stated without the model's control flow ---- *)
@@ -153,4 +203,14 @@ Definition spec_case (c : case) : bool :=
       (* exactly one of the two transport calls; raw bytes only on a declared sink, never for
          an internal sub-query, and only when the packer took the message *)
       xorb wrote fell && (if wrote then direct && negb internal && handled else true)
+  | CaseName s buflen off cm compress ok off1 written added =>
+      (* an uncompressed name occupies its presentation length + 1 octets, a compressed one
+         no more; nothing is written past the buffer *)
+      if ok then (off1 <=? buflen)%nat && (length written =? off1 - off)%nat &&
+                 (off1 <=? off + name_len s)%nat &&
+                 (match cm with None => (off1 =? off + (match s with [] => 0 | _ => name_len s end))%nat | Some _ => true end)
+      else true
+  | CaseConcrete h compress qs an ns ex handled lib_ok bytes =>
+      (* whatever the pooled packer agrees to encode the library encodes *)
+      if handled then lib_ok else true
   end.
